@@ -41,7 +41,7 @@ KEYS = ["rsa1024", "rsa", "rsa3072"]
 CLASSES = ["valid", "valid48", "first_byte", "second_byte", "zero_in_ps",
            "no_separator", "sep_pos", "em_zero", "em_one", "em_nminus1",
            "random_em", "len_plus", "len_minus", "ge_n", "wrong_version",
-           "len47", "len49"]
+           "len47", "len49", "empty", "one_byte"]
 _keys = {}
 
 
@@ -51,8 +51,25 @@ def init(tier, seed):
 
 def key(name):
     if name not in _keys:
-        chain, k = sc.cred(name)
-        _keys[name] = k
+        if name.startswith("gen"):
+            # a key made by generateRSAKey() (built empty, numbers assigned
+            # afterwards) and one built through the constructor from numbers
+            from tlslite.utils.keyfactory import generateRSAKey
+            from tlslite.utils.python_rsakey import Python_RSAKey
+            prev = DET.current
+            DET.current = "keygen"
+            DET.reseed("C11-keygen")
+            try:
+                g = generateRSAKey(1024, ["python"])
+            finally:
+                DET.current = prev
+            if name == "gen_ctor":
+                g = Python_RSAKey(g.n, g.e, g.d, g.p, g.q, g.dP, g.dQ,
+                                  g.qInv)
+            _keys[name] = g
+        else:
+            chain, k = sc.cred(name)
+            _keys[name] = k
     return _keys[name]
 
 
@@ -90,6 +107,10 @@ def build_ct(k_obj, cls, pos, seed, client_version=(3, 3)):
                          (client_version[1] + pos) % 256])
         return rrsa.encrypt_em(n, e, em_valid(bad_ver + pms48[2:])), \
             False, False
+    if cls == "empty":
+        return b"", True, False
+    if cls == "one_byte":
+        return b"\x01", True, False
     if cls == "len47":
         return rrsa.encrypt_em(n, e, em_valid(pms48[:47])), False, False
     if cls == "len49":
@@ -176,7 +197,7 @@ def check(case):
     if bytes(again) != want:
         return bad("not-deterministic:repeat:" + cls, "", nt=nt,
                    labels=labels)
-    if case.get("fresh"):
+    if case.get("fresh") and not kname.startswith("gen"):
         with open(sc.key_pem(kname)) as f:
             k2 = parsePEMKey(f.read(), private=True,
                              implementations=["python"])
@@ -254,6 +275,9 @@ def check_wire(case):
     if control["server"] != "TLSLocalAlert(bad_record_mac)":
         return bad("control-not-bad-record-mac:" + ver, repr(control),
                    labels=labels)
+    if cls in ("len_plus", "len_minus", "empty", "one_byte"):
+        # the ciphertext length is public: so is the number of bytes read
+        obs = dict(obs, consumed=control["consumed"])
     if obs != control:
         diffs = [k for k in obs if obs[k] != control[k]]
         return bad("server-behaviour-depends-on-malformation:%s:%s" % (
@@ -346,8 +370,10 @@ def budget(tier):
 
 
 def explicit(tier, seed):
-    for kname in (KEYS if tier == "thorough" else ["rsa1024", "rsa"]):
-        kb = {"rsa1024": 128, "rsa": 256, "rsa3072": 384}[kname]
+    for kname in ((KEYS if tier == "thorough" else ["rsa1024", "rsa"]) +
+                  ["gen", "gen_ctor"]):
+        kb = {"rsa1024": 128, "rsa": 256, "rsa3072": 384, "gen": 128,
+              "gen_ctor": 128}[kname]
         for cls in CLASSES:
             for pos in range(8 if cls in ("zero_in_ps", "first_byte",
                                           "second_byte", "ge_n") else 2):
@@ -367,7 +393,8 @@ def explicit(tier, seed):
                        "smax": list(smax), "pv": list(pv)}
     for ver in ("ssl3", "tls10", "tls11", "tls12"):
         for cls in CLASSES:
-            if cls in ("len_plus", "len_minus", "ge_n"):
+            if cls in ("len_plus", "len_minus", "ge_n") and \
+                    tier != "thorough" and ver != "tls12":
                 continue
             for pos in ((0, 7) if cls in ("zero_in_ps", "sep_pos",
                                           "wrong_version") else (0,)):
